@@ -4,6 +4,7 @@ For every datagram accepted by the header parser, a set of inspection histories 
 Messages from the real (lazy) deserializer, each followed by re-encoding with the real serializer.
 """
 import math
+import zlib
 
 from .. import env
 
@@ -35,7 +36,7 @@ MUST_REACH = {
     "hist_never": 200, "hist_header_only": 200, "parsed_canonical_identical": 200, "failed_parse_forwardable": 20,
     "noncanonical_zc_message_equal": 20, "eager_parsed": 100, "mut_truncated": 50, "mut_extended": 20, "mut_flipped": 50,
     "mut_rezero": 20, "templates_covered": 481, "hist_take": 200, "zero_runs_at_chunk_boundary": 20,
-    "datagrams_custom_template": 200,
+    "datagrams_custom_template": 200, "hist_orphaned": 60,
 }
 
 _ser = UDPMessageSerializer()
@@ -44,7 +45,8 @@ _es = Settings()
 _es.ENABLE_DEFERRED_PACKET_PARSING = False
 _eager = UDPMessageDeserializer(settings=_es)
 
-HISTORIES = ["never", "header", "body", "header+body", "body+body", "body+header", "eager", "take>copy", "take>orig", "flip", "header+flip"]
+HISTORIES = ["never", "header", "body", "header+body", "body+body", "body+header", "eager", "take>copy", "take>orig", "flip", "header+flip",
+             "orphaned"]
 
 
 def _has_nan(msg) -> bool:
@@ -183,6 +185,8 @@ def check_datagram(ctx, b: bytes, origin):
         canonical = wire.is_canonical_zerocoding(parts[1])
     ref_msg = None     # eager decode of b, when possible
     for hist in HISTORIES:
+        if hist == "orphaned" and (zlib.crc32(b) % 8 or origin.get("kind") not in ("generated", "zero-run-at-chunk-boundary")):
+            continue        # (needs a garbage collection per case: one generated datagram in eight)
         ctx.ev()
         wit = {"datagram": b, "history": hist, "origin": origin, "name": name}
         parsed = False
@@ -196,6 +200,24 @@ def check_datagram(ctx, b: bytes, origin):
                 except Exception:
                     ctx.count("eager_rejected")
                     continue
+            elif hist == "orphaned":
+                # the deserializer that produced the message is gone (collected) before anybody looks at the body: there is
+                # nothing left that knows the message's template, the message can only be passed on as it is
+                import gc
+                d = UDPMessageDeserializer()
+                d.template_dict = _TD
+                msg = d.deserialize(b)
+                del d
+                gc.collect()
+                try:
+                    msg.blocks
+                except Exception:
+                    pass
+                ctx.count("hist_orphaned")
+                if msg.raw_body is None:
+                    # somebody parsed it after all: then with what the deserializer knew, i.e. it must re-encode like a
+                    # parsed message (judged below)
+                    parsed = True
             elif hist.startswith("take>"):
                 # an addon / waiter takes the still unparsed message (Message.take()), the copy's body is looked at, then the
                 # original's; the copy gets the original's header back (take() clears id and acks by design) and one of the
